@@ -16,7 +16,7 @@ can see is what has been *inserted* by then:
   the root's;
 * `parse_rootdefinition_struct` (structs.rs): every method is registered before the first method body is type
   checked, so each call of a method — from a sibling method wherever it stands in the struct, or from outside — sees
-  all of them;
+  all of them (two structs with methods of one name: each call sees the methods of its own struct);
 * intrinsics are in the root scope's vector from the start; user overloads of the same name are pushed behind them;
 * `write_function`: a call that selects a template instantiation builds its body at that moment
   (`build_function_template_body`: only `if get_function_implementation(new_id).is_none()`), with the scope set to the
@@ -33,18 +33,19 @@ instances have a body.  (The instantiation registry `find_instantiation` of the 
 namespace RsslVerif.Model.Overload
 open RsslVerif.Gen.RankTable RsslVerif.Model.Conv
 
-/-- where the overloads live: free functions (root scope and `namespace N`), methods of one struct, or the root scope
-    where the compiler's own overloads of the name come first -/
+/-- where the overloads live: free functions (root scope and `namespace N`), methods (of `struct S` and `struct S2`), or
+    the root scope where the compiler's own overloads of the name come first -/
 inductive SeqPath where | free | method | intrinsic
   deriving DecidableEq, Repr
 
 inductive SeqItem where
-  /-- a declaration of an overload (scope 0 = root scope / the struct, 1 = `namespace N`) -/
+  /-- a declaration of an overload (scope 0 = root scope / `struct S`, 1 = `namespace N` / `struct S2`) -/
   | decl (scope : Nat) (c : TCand)
   /-- the definition of an ordinary function declared earlier -/
   | define (id : Nat)
   /-- a function whose body calls the name: lookup mode (0 `f(..)` at the root, 1 `N::f(..)` at the root, 2 `f(..)`
-      inside `namespace N`, 3 `::f(..)` inside `namespace N`), explicit template arguments, argument types -/
+      inside `namespace N`, 3 `::f(..)` inside `namespace N`; methods: 0 / 1 a call of `S::f` from a sibling method /
+      from outside, 2 / 3 the same for `S2::f`), explicit template arguments, argument types -/
   | site (mode : Nat) (explicit : List TArg) (args : List ETy)
   /-- `template<typename Z> void h_j(Z z) { f(args) }` -/
   | helper (j : Nat) (mode : Nat) (args : List ETy)
@@ -83,10 +84,16 @@ def allDeclared : List SeqItem → List TCand
   | .decl _ c :: is => c :: allDeclared is
   | _ :: is => allDeclared is
 
+/-- the declarations of one scope, in order -/
+def declaredIn (scope : Nat) : List SeqItem → List TCand
+  | [] => []
+  | .decl s c :: is => if s = scope then c :: declaredIn scope is else declaredIn scope is
+  | _ :: is => declaredIn scope is
+
 /-- a struct registers all its methods before it type checks the first body -/
 def SeqState.init (p : SeqPath) (items : List SeqItem) : SeqState :=
   match p with
-  | .method => { root := allDeclared items }
+  | .method => { root := declaredIn 0 items, ns := declaredIn 1 items }
   | _ => {}
 
 /-- `find_identifier` on the name: the overload vector handed to `find_function_type`; `none` = unknown identifier -/
@@ -97,7 +104,12 @@ def SeqState.visible (p : SeqPath) (st : SeqState) (mode : Nat) : Option (List T
       | 1 => st.ns
       | 2 => if st.ns.isEmpty then st.root else st.ns
       | _ => st.root
-    | _ => st.root
+    | .method =>
+      match mode with
+      | 2 => st.ns
+      | 3 => st.ns
+      | _ => st.root
+    | .intrinsic => st.root
   if v.isEmpty then none else some v
 
 /-- `write_function` / `write_method` at a call that sees `v` -/
